@@ -61,21 +61,9 @@ def _run(ctx, w):
                 size_fields.add(r[2])
     else:
         ctx.missing_anchor("H1", "vt::Vt::size")
-    writers = {f: set() for f in fields}
-    for fn in w.bodies:
-        if fn == ctor_fn:
-            continue
-        f0 = w.facts.fns.get(fn, {})
-        if (f0.get("impl_self") or {}).get("adt") != term_ty:
-            continue
-        for pt, ps in E.stmt_writes[fn].items():
-            for p in ps:
-                if p[0] == "arg1" and len(p) >= 2 and p[1] in writers:
-                    writers[p[1]].add(fn)
-        for cs in E.sites[fn]:
-            for p in cs.W:
-                if p[0] == "arg1" and len(p) >= 2 and p[1] in writers:
-                    writers[p[1]].add(fn)
+    from rules import shared as _sh
+    rw = _sh.real_writers(w, _sh.screen(w), ctor_fn)
+    writers = {f: rw.get(f, set()) for f in fields}
     config = {f for f in fields if not writers[f]}
     exempt = (size_fields & set(fields)) | config
     ctx.extra["exempt_fields"] = {"size (read by Vt::size)": sorted(size_fields & set(fields)), "configuration (no writer outside the constructor)": sorted(config)}
@@ -118,8 +106,12 @@ def _run(ctx, w):
         if t[0] == "adt" and t[1] == term_ty:
             for nm, ft in zip(t[3], t[4]):
                 sites.append((fn, pt, ("arg1", nm), ft))
+        elif t[0] == "call" and t[1] == ctor_fn:
+            # `*self = Terminal::new(<args>)`: every field takes the constructor's value for those arguments
+            for nm in ctor_terms:
+                sites.append((fn, pt, ("arg1", nm), ("field", t, nm)))
         else:
-            ctx.violation("H2", "whole@" + fn, "%s replaces the whole terminal by %s, which is not a struct literal" % (fn, w.tstr(fn, term)), loc=w.stmt_loc(fn, pt))
+            ctx.violation("H2", "whole@" + fn, "%s replaces the whole terminal by %s, which is neither a struct literal nor the constructor" % (fn, w.tstr(fn, term)), loc=w.stmt_loc(fn, pt))
     seen = set()
     for fn, pt, p, term in sites:
         f = p[1]
